@@ -1,5 +1,252 @@
 /- Helper lemmas for the C09 models (Mpir/Model/Root.lean). -/
 import MpirProofs.Lemmas.Base
 import Mpir.Model.Root
+import Mathlib.Tactic.Ring
+import Mathlib.Tactic.Linarith
+import Mathlib.Tactic.NormNum
+import Mathlib.Data.Nat.ModEq
 namespace Mpir.Root
+open Mpir Mpir.Gen.SqrtTabs
+
+
+/-! ### the mod-256 probe -/
+
+/-- kernel-checked fact about the regenerated `sq_res_0x100`: every square residue has its bit set. -/
+theorem sqRes256_table : ∀ j < 256, sqRes256 (j * j % 256) = true := by decide +kernel
+
+theorem sqRes256_mod (lo : Nat) : sqRes256 lo = sqRes256 (lo % 256) := by
+  simp [sqRes256]
+
+theorem sqRes256_sq (k : Nat) : sqRes256 (k * k % B) = true := by
+  rw [sqRes256_mod]
+  have h : k * k % B % 256 = (k % 256) * (k % 256) % 256 := by
+    rw [Nat.mod_mod_of_dvd _ (by unfold B; norm_num : 256 ∣ B), Nat.mul_mod]
+  rw [h]
+  exact sqRes256_table _ (Nat.mod_lt _ (by norm_num))
+
+/-! ### PERFSQR_MOD_1 / PERFSQR_MOD_2 -/
+
+/-- what a regenerated test entry must satisfy (decidable; checked by the kernel on the whole table):
+    `d` divides `2^48 - 1`, `inv·d ≡ 1 (mod 2^49)`, the product `q·d` cannot wrap, and for every square
+    residue `j² mod d` the bit at the index the modexact step produces is set. -/
+def testOK (t : ModTest) : Bool :=
+  decide (0 < t.d) && decide ((2 ^ mod34Bits - 1) % t.d = 0) && decide (t.inv * t.d % 2 ^ perfsqrModBits = 1)
+    && decide (t.d * 2 ^ perfsqrModBits ≤ B)
+    && (List.range t.d).all fun j => (List.range t.d).all fun i =>
+        !decide ((i * 2 ^ perfsqrModBits + j * j) % t.d = 0) || perfsqrBit t i
+
+theorem perfsqrTests_ok : perfsqrTests.all testOK = true := by decide +kernel
+
+theorem bits_facts : perfsqrModBits ≤ 63 ∧ mod34Bits + 1 = perfsqrModBits ∧ mod34Bits = 48 := by decide
+
+
+theorem and_mask (x k : Nat) (hk : k ≤ 63) : x % B &&& ((1 <<< k) % B - 1) = x % 2 ^ k := by
+  have h1 : (1 <<< k) % B = 2 ^ k := by
+    rw [Nat.one_shiftLeft]
+    apply Nat.mod_eq_of_lt
+    unfold B
+    exact Nat.pow_lt_pow_right (by norm_num) (by omega)
+  rw [h1, Nat.and_two_pow_sub_one_eq_mod]
+  exact Nat.mod_mod_of_dvd _ (by unfold B; exact Nat.pow_dvd_pow 2 (by omega))
+
+/-- the modexact step: for `r < 2^49` the index satisfies `idx < d` and `d ∣ idx·2^49 + r`. -/
+theorem perfsqrIdx_spec (t : ModTest) (r : Nat) (hd : 0 < t.d)
+    (hinv : t.inv * t.d % 2 ^ perfsqrModBits = 1) (hw : t.d * 2 ^ perfsqrModBits ≤ B)
+    (hr : r < 2 ^ perfsqrModBits) :
+    perfsqrIdx t r < t.d ∧ (perfsqrIdx t r * 2 ^ perfsqrModBits + r) % t.d = 0 := by
+  have hb := bits_facts.1
+  unfold perfsqrIdx
+  dsimp only
+  rw [and_mask _ _ hb]
+  generalize perfsqrModBits = m at *
+  set q := r * t.inv % 2 ^ m with hq
+  have hqlt : q < 2 ^ m := Nat.mod_lt _ (by positivity)
+  have hqd : q * t.d < B := by nlinarith
+  rw [Nat.mod_eq_of_lt hqd, Nat.shiftRight_eq_div_pow]
+  have hlow : q * t.d % 2 ^ m = r := by
+    rw [hq, Nat.mod_mul_mod, Nat.mul_assoc, Nat.mul_mod, hinv, Nat.mul_one, Nat.mod_mod, Nat.mod_eq_of_lt hr]
+  have hdiv := Nat.div_add_mod (q * t.d) (2 ^ m)
+  rw [hlow] at hdiv
+  constructor
+  · apply Nat.div_lt_of_lt_mul
+    nlinarith
+  · have : q * t.d / 2 ^ m * 2 ^ m + r = q * t.d := by linarith [Nat.mul_comm (2 ^ m) (q * t.d / 2 ^ m)]
+    rw [this]; exact Nat.mul_mod_left _ _
+
+/-- one residue test never rejects a square: `r ≡ k² (mod 2^48-1)`, `r < 2^49`. -/
+theorem perfsqrTest_sq (t : ModTest) (ht : testOK t = true) (k r : Nat) (hr : r < 2 ^ perfsqrModBits)
+    (hmod : r % (2 ^ mod34Bits - 1) = k * k % (2 ^ mod34Bits - 1)) : perfsqrTest t r = true := by
+  simp only [testOK, Bool.and_eq_true, decide_eq_true_eq, List.all_eq_true, List.mem_range,
+    Bool.or_eq_true, Bool.not_eq_true', decide_eq_false_iff_not] at ht
+  obtain ⟨⟨⟨⟨hd, hdvd⟩, hinv⟩, hw⟩, htab⟩ := ht
+  obtain ⟨hlt, hz⟩ := perfsqrIdx_spec t r hd hinv hw hr
+  have hrd : r % t.d = k * k % t.d := by
+    have h1 := Nat.mod_mod_of_dvd r (Nat.dvd_of_mod_eq_zero hdvd)
+    have h2 := Nat.mod_mod_of_dvd (k * k) (Nat.dvd_of_mod_eq_zero hdvd)
+    rw [← h1, ← h2, hmod]
+  have hz' : (perfsqrIdx t r * 2 ^ perfsqrModBits + (k % t.d) * (k % t.d)) % t.d = 0 := by
+    rw [Nat.add_mod, ← Nat.mul_mod, ← hrd, ← Nat.add_mod]; exact hz
+  rcases htab (k % t.d) (Nat.mod_lt _ hd) _ hlt with h | h
+  · exact absurd hz' h
+  · exact h
+
+
+/-! ### mpn_mod_34lsub1 -/
+
+
+theorem parts0_congr (x : Nat) : m34Parts0 x % (2 ^ 48 - 1) = x % (2 ^ 48 - 1) := by
+  unfold m34Parts0
+  rw [Nat.and_two_pow_sub_one_eq_mod, Nat.shiftRight_eq_div_pow]
+  norm_num
+  omega
+
+theorem parts1_congr (x : Nat) : m34Parts1 x % (2 ^ 48 - 1) = (x * 2 ^ 64) % (2 ^ 48 - 1) := by
+  unfold m34Parts1
+  rw [Nat.and_two_pow_sub_one_eq_mod, Nat.shiftRight_eq_div_pow, Nat.shiftLeft_eq]
+  norm_num
+  omega
+
+theorem parts2_congr (x : Nat) : m34Parts2 x % (2 ^ 48 - 1) = (x * 2 ^ 128) % (2 ^ 48 - 1) := by
+  unfold m34Parts2
+  rw [Nat.and_two_pow_sub_one_eq_mod, Nat.shiftRight_eq_div_pow, Nat.shiftLeft_eq]
+  norm_num
+  omega
+
+theorem parts_bound (x : Nat) (hx : x < B) : m34Parts0 x < 2 ^ 49 ∧ m34Parts1 x < 2 ^ 49 ∧ m34Parts2 x < 2 ^ 49 := by
+  unfold m34Parts0 m34Parts1 m34Parts2
+  simp only [Nat.and_two_pow_sub_one_eq_mod, Nat.shiftRight_eq_div_pow, Nat.shiftLeft_eq, B_eq] at *
+  norm_num
+  omega
+
+/-- ADD (c, a, val): exact two-limb accumulation while the carry counter cannot wrap. -/
+theorem m34Add_spec (a c v : Nat) (ha : a < B) (hv : v < B) (hc : c + 1 < B) :
+    (m34Add a c v).1 + B * (m34Add a c v).2 = a + B * c + v ∧ (m34Add a c v).1 < B ∧
+    (m34Add a c v).2 ≤ c + 1 := by
+  unfold m34Add boolToNat
+  simp only [B_eq] at *
+  by_cases h : (a + v) % 18446744073709551616 < v <;> simp only [h, decide_true, decide_false, Bool.false_eq_true, if_true, if_false, ↓reduceIte] <;> omega
+
+def M34.acc (st : M34) : Nat :=
+  (st.a0 + B * st.c0) + B * (st.a1 + B * st.c1) + B ^ 2 * (st.a2 + B * st.c2)
+
+def M34.ok (st : M34) (n : Nat) : Prop :=
+  st.a0 < B ∧ st.a1 < B ∧ st.a2 < B ∧ st.c0 + n < B ∧ st.c1 + n < B ∧ st.c2 + n < B
+
+theorem B3_modEq : B ^ 3 ≡ 1 [MOD B ^ 3 - 1] :=
+  Nat.modEq_sub (Nat.one_le_pow _ _ B_pos)
+
+theorem m34Loop_spec : ∀ (p : List Nat) (st : M34), Limbs p → st.ok p.length →
+    (m34Loop p st).acc ≡ st.acc + val p [MOD B ^ 3 - 1] ∧ (m34Loop p st).ok 0
+  | [], st, _, hok => by simpa [m34Loop, Nat.ModEq] using hok
+  | [p0], st, hp, hok => by
+    obtain ⟨h0, h1, h2, hc0, hc1, hc2⟩ := hok
+    have hp0 := (Limbs_cons.mp hp).1
+    obtain ⟨e, b, c⟩ := m34Add_spec st.a0 st.c0 p0 h0 hp0 (by simpa using hc0)
+    simp only [m34Loop, M34.acc, M34.ok, val_cons, val_nil, List.length_cons, List.length_nil] at *
+    refine ⟨?_, b, h1, h2, by omega, by omega, by omega⟩
+    unfold Nat.ModEq; congr 1
+    generalize (m34Add st.a0 st.c0 p0).1 = x at *
+    generalize (m34Add st.a0 st.c0 p0).2 = y at *
+    nlinarith
+  | [p0, p1], st, hp, hok => by
+    obtain ⟨h0, h1, h2, hc0, hc1, hc2⟩ := hok
+    have ⟨hp0, hp'⟩ := Limbs_cons.mp hp
+    have hp1 := (Limbs_cons.mp hp').1
+    simp only [List.length_cons, List.length_nil] at hc0 hc1 hc2
+    obtain ⟨e0, b0, c0⟩ := m34Add_spec st.a0 st.c0 p0 h0 hp0 (by omega)
+    obtain ⟨e1, b1, c1⟩ := m34Add_spec st.a1 st.c1 p1 h1 hp1 (by omega)
+    simp only [m34Loop, M34.acc, M34.ok, val_cons, val_nil] at *
+    refine ⟨?_, b0, b1, h2, by omega, by omega, by omega⟩
+    unfold Nat.ModEq; congr 1
+    generalize (m34Add st.a0 st.c0 p0).1 = x0 at *
+    generalize (m34Add st.a0 st.c0 p0).2 = y0 at *
+    generalize (m34Add st.a1 st.c1 p1).1 = x1 at *
+    generalize (m34Add st.a1 st.c1 p1).2 = y1 at *
+    nlinarith
+  | p0 :: p1 :: p2 :: rest, st, hp, hok => by
+    obtain ⟨h0, h1, h2, hc0, hc1, hc2⟩ := hok
+    have ⟨hp0, hp'⟩ := Limbs_cons.mp hp
+    have ⟨hp1, hp''⟩ := Limbs_cons.mp hp'
+    have ⟨hp2, hrest⟩ := Limbs_cons.mp hp''
+    simp only [List.length_cons] at hc0 hc1 hc2
+    obtain ⟨e0, b0, c0⟩ := m34Add_spec st.a0 st.c0 p0 h0 hp0 (by omega)
+    obtain ⟨e1, b1, c1⟩ := m34Add_spec st.a1 st.c1 p1 h1 hp1 (by omega)
+    obtain ⟨e2, b2, c2⟩ := m34Add_spec st.a2 st.c2 p2 h2 hp2 (by omega)
+    have ih := m34Loop_spec rest
+      ⟨(m34Add st.a0 st.c0 p0).1, (m34Add st.a1 st.c1 p1).1, (m34Add st.a2 st.c2 p2).1,
+       (m34Add st.a0 st.c0 p0).2, (m34Add st.a1 st.c1 p1).2, (m34Add st.a2 st.c2 p2).2⟩ hrest
+      ⟨b0, b1, b2, by simp only; omega, by simp only; omega, by simp only; omega⟩
+    simp only [m34Loop]
+    refine ⟨?_, ih.2⟩
+    refine ih.1.trans ?_
+    simp only [M34.acc, val_cons]
+    generalize (m34Add st.a0 st.c0 p0).1 = x0 at *
+    generalize (m34Add st.a0 st.c0 p0).2 = y0 at *
+    generalize (m34Add st.a1 st.c1 p1).1 = x1 at *
+    generalize (m34Add st.a1 st.c1 p1).2 = y1 at *
+    generalize (m34Add st.a2 st.c2 p2).1 = x2 at *
+    generalize (m34Add st.a2 st.c2 p2).2 = y2 at *
+    have key : x0 + B * y0 + B * (x1 + B * y1) + B ^ 2 * (x2 + B * y2) + val rest
+        = st.a0 + B * st.c0 + B * (st.a1 + B * st.c1) + B ^ 2 * (st.a2 + B * st.c2)
+          + (p0 + B * p1 + B ^ 2 * p2) + 1 * val rest := by nlinarith
+    have tgt : st.a0 + B * st.c0 + B * (st.a1 + B * st.c1) + B ^ 2 * (st.a2 + B * st.c2)
+          + (p0 + B * (p1 + B * (p2 + B * val rest)))
+        = st.a0 + B * st.c0 + B * (st.a1 + B * st.c1) + B ^ 2 * (st.a2 + B * st.c2)
+          + (p0 + B * p1 + B ^ 2 * p2) + B ^ 3 * val rest := by ring
+    rw [key, tgt]
+    exact Nat.ModEq.add_left _ (B3_modEq.symm.mul_right _)
+
+
+theorem dvd_B3 : (2 ^ 48 - 1) ∣ B ^ 3 - 1 := by unfold B; norm_num
+
+/-- mpn_mod_34lsub1 returns a limb congruent to `{p, n}` modulo `2^48 - 1`
+    (`n/3 < GMP_NUMB_MAX` is the C's ASSERT; `p.length < B - 1` is a little stronger and always true). -/
+theorem mod34lsub1_congr (p : List Nat) (hp : Limbs p) (hn : p.length + 1 < B) :
+    mod34lsub1 p % (2 ^ 48 - 1) = val p % (2 ^ 48 - 1) ∧ mod34lsub1 p < B := by
+  obtain ⟨hc, h0, h1, h2, hc0, hc1, hc2⟩ := m34Loop_spec p ⟨0, 0, 0, 0, 0, 0⟩ hp
+    ⟨B_pos, B_pos, B_pos, by simpa using by omega, by simpa using by omega, by simpa using by omega⟩
+  have hc' := Nat.ModEq.of_dvd dvd_B3 hc
+  unfold mod34lsub1
+  dsimp only
+  generalize m34Loop p ⟨0, 0, 0, 0, 0, 0⟩ = st at *
+  simp only [Nat.add_zero] at hc0 hc1 hc2
+  obtain ⟨p0a, -, -⟩ := parts_bound st.a0 h0
+  obtain ⟨-, p1a, -⟩ := parts_bound st.a1 h1
+  obtain ⟨-, -, p2a⟩ := parts_bound st.a2 h2
+  obtain ⟨-, p1c, -⟩ := parts_bound st.c0 hc0
+  obtain ⟨-, -, p2c⟩ := parts_bound st.c1 hc1
+  obtain ⟨p0c, -, -⟩ := parts_bound st.c2 hc2
+  have hV : m34Parts0 st.a0 + m34Parts1 st.a1 + m34Parts2 st.a2 + m34Parts1 st.c0 + m34Parts2 st.c1
+      + m34Parts0 st.c2 < B := by simp only [B_eq]; omega
+  rw [Nat.mod_eq_of_lt hV]
+  refine ⟨?_, hV⟩
+  have e : m34Parts0 st.a0 + m34Parts1 st.a1 + m34Parts2 st.a2 + m34Parts1 st.c0 + m34Parts2 st.c1
+      + m34Parts0 st.c2 ≡ st.a0 + st.a1 * 2 ^ 64 + st.a2 * 2 ^ 128 + st.c0 * 2 ^ 64 + st.c1 * 2 ^ 128
+        + st.c2 [MOD 2 ^ 48 - 1] :=
+    ((((Nat.ModEq.add (parts0_congr st.a0) (parts1_congr st.a1)).add (parts2_congr st.a2)).add
+      (parts1_congr st.c0)).add (parts2_congr st.c1)).add (parts0_congr st.c2)
+  have hB3 : B ^ 3 ≡ 1 [MOD 2 ^ 48 - 1] := by unfold B; decide
+  have e2 : st.acc ≡ st.a0 + st.a1 * 2 ^ 64 + st.a2 * 2 ^ 128 + st.c0 * 2 ^ 64 + st.c1 * 2 ^ 128
+      + st.c2 [MOD 2 ^ 48 - 1] := by
+    have : st.acc = st.a0 + st.a1 * 2 ^ 64 + st.a2 * 2 ^ 128 + st.c0 * 2 ^ 64 + st.c1 * 2 ^ 128
+        + B ^ 3 * st.c2 := by unfold M34.acc B; ring
+    rw [this]
+    have := hB3.mul_right st.c2
+    rw [Nat.one_mul] at this
+    exact Nat.ModEq.add_left _ this
+  have hc'' : st.acc ≡ val p [MOD 2 ^ 48 - 1] := by simpa [M34.acc] using hc'
+  exact (e.trans e2.symm).trans hc''
+
+theorem perfsqrFold_spec (r : Nat) (hr : r < B) :
+    perfsqrFold r % (2 ^ 48 - 1) = r % (2 ^ 48 - 1) ∧ perfsqrFold r < 2 ^ 49 := by
+  unfold perfsqrFold
+  have : mod34Bits = 48 := by decide
+  rw [this]
+  have h1 : (1 <<< 48) % B = 2 ^ 48 := by unfold B; decide
+  rw [h1, Nat.and_two_pow_sub_one_eq_mod, Nat.shiftRight_eq_div_pow]
+  simp only [B_eq] at hr
+  norm_num
+  omega
+
+
 end Mpir.Root
